@@ -53,7 +53,8 @@ def gen(rng, tier):
     fa["symbols"] = [s for s in fa["symbols"] if s in ("a", "b")] or ["a"]
     fa["trans"] = [t for t in fa["trans"] if t[1] is None or t[1] in ("a", "b")]
     fa["extra_symbols"] = []
-    return {"rules": rules, "perm_seed": rng.getrandbits(30), "nperm": 12 if tier == "quick" else 60,
+    start = "S" if rng.chance(0.8) else rng.pick(nts)
+    return {"rules": rules, "start": start, "perm_seed": rng.getrandbits(30), "nperm": 12 if tier == "quick" else 60,
             "fa": GF.fix_kind(fa), "with_intersection": rng.chance(0.5) and len(rules) <= 6}
 
 
@@ -63,6 +64,8 @@ def shrink(case):
         yield dict(case, rules=rs[:i] + rs[i + 1:])
     if case["nperm"] > 1:
         yield dict(case, nperm=max(1, case["nperm"] // 2))
+    if case.get("start", "S") != "S":
+        yield dict(case, start="S")
     if case.get("with_intersection"):
         for c in GF.shrink_fa(case["fa"]):
             if c["valmode"] == "str" and c["symmode"] == "str":
@@ -90,8 +93,11 @@ def _perms(case):
 
 def run(case, out):
     from pyformlang.indexed_grammar import IndexedGrammar, Rules
-    ref = M.Ig(case["rules"])
+    start = case.get("start", "S")
+    ref = M.Ig(case["rules"], start=start)
     want = ref.is_empty()
+    if start != "S":
+        out.probe("start_variable_is_not_S")
     out.shape = str(sorted(map(tuple, case["rules"])))
     out.sig = str(case["perm_seed"])
     kinds = {r[0] for r in case["rules"]}
@@ -113,7 +119,7 @@ def run(case, out):
             _random.seed(case["perm_seed"] + pi)      # seam S2: optim=8 shuffles with the global generator
 
             def build():
-                return IndexedGrammar(Rules([mk(r) for r in rl], optim))
+                return IndexedGrammar(Rules([mk(r) for r in rl], optim), start)
             ig = out.call("IndexedGrammar(optim=%d)" % optim, build)
             if ig is FAILED:
                 break
@@ -139,11 +145,11 @@ def run(case, out):
                         break
     if case.get("with_intersection"):
         nfa = GF.ref_of(case["fa"])
-        wanti = M.product_is_empty(ref, nfa)
+        wanti = M.product_is_empty(ref, nfa, start)
         out.probe("intersection_empty" if wanti else "intersection_non_empty")
         for optim in (7, 0, 3):
             _random.seed(case["perm_seed"])
-            ig = IndexedGrammar(Rules([mk(r) for r in case["rules"]], optim))
+            ig = IndexedGrammar(Rules([mk(r) for r in case["rules"]], optim), start)
             res = out.call("intersection", ig.intersection, GF.build(case["fa"]))
             if res is FAILED:
                 break
